@@ -238,7 +238,9 @@ class Module:
                         f.order.append(cur)
                         continue
                     if cur is None:
-                        cur = "%entry.implicit"
+                        # unnamed entry block: its implicit label is the next unnamed value number after the parameters
+                        nun = sum(1 for p_ in params if re.match(r"^%\d+$", p_[2]))
+                        cur = "%%%d" % nun
                         f.blocks[cur] = []
                         f.order.append(cur)
                     ins = self._parse_instr(bl.strip(), cur, idx)
